@@ -22,6 +22,7 @@ import Scc.Core2AxCut.Model
 import Scc.X86.Backend
 import Scc.A64.Backend
 import Scc.RV.Backend
+import Scc.PMoves.Model
 
 namespace Scc.Tables
 open Scc.Generated
@@ -590,6 +591,32 @@ theorem T_rv_capacity :
     = ((List.range 20).flatMap fun p => [srcRvRegister rvConfig rvCapacityAssert 0 p, srcRvRegister rvConfig rvCapacityAssert 1 p]) := by
   decide
 
+/-! ## explicit substitutions: the reference-count arms of substitution.rs (C11) -/
+
+/-- the `Backend` method an abstract refcount instruction of the model stands for -/
+def ropMethod : Scc.PMoves.ROp → String
+  | .erase _ => "erase_block"
+  | .share _ _ => "share_block_n"
+  | .comment _ _ => "comment"
+
+/-- substitution.rs fn code_weakening_contraction / update_reference_count, as extracted from the Rust text,
+    side by side with the hand-written model `Scc.PMoves.updateReferenceCount` / `codeWeakeningContraction`:
+    the arms of `match new_count` are `0`, `1`, `_` and call exactly the methods the model emits for 0, 1 and
+    ≥ 2 targets; the count argument of `share_block_n` is `new_count - 1` (model: `n + 1` for `n + 2`, for
+    every `n`); the temporary addressed is `Fst` (model: number 0 of the position); the loop skips `Ext`
+    bindings (model: no instruction) and passes `targets.len()`. -/
+theorem T_subst_refcount :
+    substRefcountArms = [("0", "comment,erase_block"), ("1", ""), ("_", "comment,share_block_n:new_count - 1")]
+    ∧ substRefcountMeta = [("temporary", "Fst"), ("guard", "binding.chi != Chirality::Ext"), ("count", "targets.len()")]
+    ∧ ((Scc.PMoves.updateReferenceCount some 7 [(7, .prd)] 0).getD []).map ropMethod = ["comment", "erase_block"]
+    ∧ ((Scc.PMoves.updateReferenceCount some 7 [(7, .prd)] 1).getD [.erase 0]).map ropMethod = []
+    ∧ (∀ n, Scc.PMoves.updateReferenceCount some 7 [(3, .cns), (7, .prd)] (n + 2)
+          = some [.comment 1 7, .share 2 (n + 1)])
+    ∧ Scc.PMoves.codeWeakeningContraction some [((7, .ext), [])] [(7, .ext)] = some []
+    ∧ Scc.PMoves.codeWeakeningContraction some [((7, .prd), [4, 5, 6])] [(7, .prd)]
+          = some [.comment 1 7, .share 0 2] := by
+  refine ⟨by decide, by decide, by decide, by decide, fun n => rfl, by decide, by decide⟩
+
 end Scc.Props
 
 #print axioms Scc.Props.T_fun2core_ifsort
@@ -602,3 +629,4 @@ end Scc.Props
 #print axioms Scc.Props.T_x86_capacity
 #print axioms Scc.Props.T_a64_capacity
 #print axioms Scc.Props.T_rv_capacity
+#print axioms Scc.Props.T_subst_refcount
